@@ -164,7 +164,7 @@ def eval_chatter(case):
         if logs:
             V.append(Violation('log.noise', case, {'log': logs}))
     except Exception:
-        V.append(Violation('exception', case, {'traceback': traceback.format_exc()[-1500:]}))
+        V.append(sut.exc_violation(case))
     return Eval(V, outcome=[case['stream'], len(V)], nontrivial=bool(case['insert']), transitions=len(case['insert']) + 10)
 
 
@@ -199,7 +199,7 @@ def eval_truncation(case):
                 sorted(c['conn'] for c in closed) != sorted(opened):
             V.append(Violation('truncation.tail', case, {'opened': sorted(opened), 'observed': tail}))
     except Exception:
-        V.append(Violation('exception', case, {'traceback': traceback.format_exc()[-1500:]}))
+        V.append(sut.exc_violation(case))
     return Eval(V, outcome=[case['stream'], len(V)], nontrivial=True, transitions=10)
 
 
